@@ -9,6 +9,17 @@ from ..match import pmatch, find
 from .common import where, run_id_typestate
 
 
+def loop_iter(fn, l):
+    """the iterable of a loop, looked through a local that holds it (`sites = range(n) if .. else ..; for i in sites:`)"""
+    it = l.iter
+    if isinstance(it, ast.Name):
+        d_ = [s_ for s_ in ast.walk(fn) if isinstance(s_, ast.Assign) and len(s_.targets) == 1 and norm(s_.targets[0]) == it.id]
+        st = [n_ for n_ in ast.walk(fn) if isinstance(n_, ast.Name) and n_.id == it.id and isinstance(n_.ctx, ast.Store)]
+        if len(d_) == 1 and len(st) == 1:
+            return d_[0].value
+    return it
+
+
 def site_index_ok(fi, node, arg):
     """`arg` is the site being unrolled: an affine expression v + c in the variable v of an ENCLOSING loop over
     range(a, b) (possibly reversed) with a + c == 0 and b + c == length; lengths asserted in the function
@@ -27,7 +38,7 @@ def site_index_ok(fi, node, arg):
         if not (isinstance(l, ast.For) and isinstance(l.target, ast.Name) and a.coeff(l.target.id) == 1 and
                 a.syms() == {l.target.id}):
             continue
-        it = l.iter
+        it = loop_iter(fi.node, l)
         if isinstance(it, ast.IfExp):
             its = [it.body, it.orelse]
         else:
@@ -279,7 +290,13 @@ def frontier_rule(fi, d):
     if len(sweeps) != 1:
         raise AnalysisError('from_automaton: site loop of the reachability sweep not found')
     sw = sweeps[0]
-    it = fold(sw.iter, env)
+    it_expr = sw.iter
+    if isinstance(it_expr, ast.Name):
+        # the site order held in a local of the direction loop
+        d_ = [s_ for s_ in body if isinstance(s_, ast.Assign) and len(s_.targets) == 1 and norm(s_.targets[0]) == it_expr.id]
+        if len(d_) == 1:
+            it_expr = d_[0].value
+    it = fold(it_expr, env)
     order = {'range(length)': 'asc', 'reversed(range(length))': 'desc'}.get(norm(it) if isinstance(it, ast.AST) else '')
     # frontier: the set iterated by the node loop
     fr_end = None
@@ -319,13 +336,44 @@ def frontier_rule(fi, d):
                 else:
                     setg('undecided')
     grow([s_ for s_ in sw.body if not isinstance(s_, ast.For)])
-    want_end = -1 if d == 1 else 0
+    # a reversal of the whole list after the sweep (possibly only for one direction)
+    flipped = False
+
+    def flips(stmts):
+        nonlocal flipped
+        for s_ in stmts:
+            if isinstance(s_, ast.If):
+                t = fold(s_.test, env)
+                if isinstance(t, bool):
+                    flips(s_.body if t else s_.orelse)
+                elif any(isinstance(x, ast.Name) and x.id == lay for b_ in (s_.body + s_.orelse) for x in ast.walk(b_)):
+                    setg('undecided')
+            elif isinstance(s_, ast.Expr) and isinstance(s_.value, ast.Call) and norm(s_.value.func) == f'{lay}.reverse' and \
+                    not s_.value.args:
+                flipped = not flipped
+            elif isinstance(s_, ast.Assign) and norm(s_.targets[0]) == lay and \
+                    norm(s_.value) in (f'{lay}[::-1]', f'list(reversed({lay}))'):
+                flipped = not flipped
+            elif isinstance(s_, ast.Assign) and norm(s_.targets[0]) == lay:
+                setg('undecided')
+    after = body[body.index(sw) + 1:]
+    flips(after)
+    # the list must end up ordered by layer from left to right: the sweep order itself for the ascending sweep, the
+    # reversed sweep order for the descending one.  Extending at the end keeps sweep order, extending at the front
+    # reverses it; a reversal of the finished list flips once more.  The frontier is the most recently added layer.
+    want_reversed = (d == 0)
+    is_reversed = None
+    if grow_end in (0, -1):
+        is_reversed = (grow_end == 0) != flipped
+    want_end = grow_end if grow_end in (0, -1) else (-1 if d == 1 else 0)
     # every site is evaluated: edge activity may depend on the site, so the sweep has no early exit
     exits = [x for b_ in sw.body for x in ast.walk(b_) if isinstance(x, (ast.Break, ast.Return))
              and not any(isinstance(l, (ast.For, ast.While)) and any(x is y for y in ast.walk(l)) for b2 in sw.body
                          for l in ast.walk(b2) if isinstance(l, (ast.For, ast.While)))]
-    ok = term == 1 - d and order == ('asc' if d == 1 else 'desc') and fr_end == want_end and grow_end == want_end and not exits
+    ok = term == 1 - d and order == ('asc' if d == 1 else 'desc') and fr_end == want_end and grow_end in (0, -1) and \
+        is_reversed == want_reversed and not exits
     return ok, (f'start terminal {term}, site order {order}, frontier index {fr_end!r}, list extended at {grow_end!r}' +
+                (', reversed after the sweep' if flipped else '') +
                 (f', early exit from the site loop at line {exits[0].lineno}' if exits else ''))
 
 
@@ -427,7 +475,7 @@ def rule_R4(chk, repo):
     follow = [l for l in ast.walk(fi.node) if isinstance(l, ast.For) and pmatch('__AUT.nodes[__n].eids[direction]', l.iter) is not None]
     add_ok = bool(find('__S.add(__e.nids[direction])', fi.node))
     dirs = [l for l in ast.walk(fi.node) if isinstance(l, ast.For) and pmatch(
-        'range(length) if direction == 1 else reversed(range(length))', l.iter) is not None]
+        'range(length) if direction == 1 else reversed(range(length))', loop_iter(fi.node, l)) is not None]
     chk.ob(rid, where(repo, fi, fi.node), 'reachability in direction d starts at terminal 1-d and follows eids[d] -> nids[d], '
            'visiting sites in ascending (d=1) resp. descending (d=0) order',
            bool(start) and bool(follow) and add_ok and bool(dirs), '', key=f'{rid}|reach-sweep')
@@ -435,8 +483,8 @@ def rule_R4(chk, repo):
     for d in (0, 1):
         ok_f, detail = frontier_rule(fi, d)
         chk.ob(rid, where(repo, fi, fi.node), f'reachability, direction {d}: the sweep starts at terminal {1 - d}, visits the '
-               f'sites {"ascending" if d == 1 else "descending"}, extends the layer list at the {"end" if d == 1 else "front"} '
-               f'and reads its frontier from that same end, one layer per site without early exit', ok_f, detail, key=f'{rid}|reach-frontier|{d}')
+               f'sites {"ascending" if d == 1 else "descending"}, reads its frontier from the end at which it extends the layer list, '
+               f'leaves the list ordered by layer from left to right, one layer per site without early exit', ok_f, detail, key=f'{rid}|reach-frontier|{d}')
     chk.floor(rid, 13, 13)
 
 
@@ -503,6 +551,12 @@ def rule_R7(chk, repo):
 
 
 def run(chk, repo, tier):
+    # support rules first: what they establish is reported even if a later rule cannot follow a restructured routine
+    from . import support
+    support.graph_table_rules(chk, repo, 'C17.R8')
+    from .C16 import rule_R6 as edge_sum_rule
+    edge_sum_rule(chk, repo, 'C17.R9', 'opgraph.OpGraphEdge.__init__')
+    support.container_rules(chk, repo, 'C17.R10', ['optree.OpTreeNode.__init__', 'autop.AutOp.__init__', 'opgraph.OpGraph.__init__'])
     chk.rule('C17.R1', 'id allocation typestate in from_automaton, _insert_opchain, _insert_subtree and from_optrees '
                        '(path-sensitive: the reuse of the terminal id in _insert_subtree is correlated with the '
                        'condition under which no node is created).')
@@ -516,10 +570,6 @@ def run(chk, repo, tier):
     rule_R7(chk, repo)
     from . import kronrule
     kronrule.analyse(chk, repo, 'C17.R6')
-    from . import support
-    support.graph_table_rules(chk, repo, 'C17.R8')
-    from .C16 import rule_R6 as edge_sum_rule
-    edge_sum_rule(chk, repo, 'C17.R9', 'opgraph.OpGraphEdge.__init__')
     chk.undecided += ['denotation of the unrolled graph (sum over automaton paths / padded trees)',
                       'dense meaning of chains, trees and graphs under an operator map']
     return ('Static rules over opgraph.py (from_automaton, tree insertion): id typestate, callable dispatch at the '
